@@ -301,6 +301,12 @@ def rule_r3(ctx):
                             "the chunk coding of write() only applies under %s: a response announced as chunked can be written raw (e.g. once execute() learned a length after the head was sent)" % extra, f.loc(b.ast))
         else:
             ctx.r.ok(rid, "chunk coding applies whenever the response was announced as chunked", f.loc(b.ast))
+        # a chunk of length 0 is the terminator: the chunk coding is applied to non-empty data only (write(b"") is used
+        # by the server itself to emit the head, and applications may call the write callable with b"")
+        if any(pol and dotted(t) == data for (t, pol) in guards_of(g, b)):
+            ctx.r.ok(rid, "no chunk is emitted for empty data", f.loc(b.ast))
+        else:
+            ctx.r.violation(rid, key_of(f, None, "empty-chunk"), "write() applies the chunk coding to empty data: `0 CRLF CRLF` is emitted in mid-response, the client takes it for the end of the body and the rest as the next response", f.loc(b.ast))
         parts = []
         var = None
         for n in g.nodes:
